@@ -6,6 +6,8 @@ from lib.common import *
 
 KEYS = ["k", "k1", "key2", "endpoint:e", "endpoint:f", "proxy_addr", "admin_addr", "x", "",
         "a-rather-long-key-name-over-31-bytes-xx", "\xc3\xa9t\xc3\xa9"]
+# (names the protocol reserves - "_internal:left", "_internal:compact" - are not written through the application API: piko's
+#  server only ever writes proxy_addr, admin_addr and endpoint:<id>; a write to a reserved name clashes with the marker itself)
 VALS = ["", "v", "1", "2", "10", "value-" + "z" * 40, "10.0.0.1:8000", "\x00\xff", "w"]
 IDS = ["a", "b", "c", "n4", "node-5"]
 
@@ -605,7 +607,7 @@ def gen_burst_case(rng, cid):
             ops.append({"op": "send", "a": t, "b": o, "max": 1400})
             ops.append({"op": "deliver", "i": n_before, "max": 1400})      # the request just sent: o answers delta + digest
             n_before += 2
-        ops.append({"op": "serve_burst", "n": t, "i": 0})
+        ops.append({"op": "serve_burst", "n": t, "i": 0, "e": rng.choice(["", "", "fit"])})
         for _ in range(rng.randint(2, 8)):
             ops.append({"op": "deliver", "i": 0, "max": 1400})
     # drain
@@ -1014,10 +1016,29 @@ def fd_monitor(case, out):
     return None
 
 
+def fd_corpus_case(cid, boot, step, silent_ticks, after_ticks):
+    """three nodes that hear from each other every tick; node c then says nothing for silent_ticks ticks and comes back"""
+    nodes = [{"id": H(IDS[i]), "addr": H("10.0.0.%d:7000" % (i + 1))} for i in range(3)]
+    ops = [{"op": "upsert", "n": n, "k": H("k"), "v": H("v%d" % n)} for n in range(3)]
+    ops += [{"op": "join", "a": 1, "b": 0}, {"op": "join", "a": 2, "b": 0}]
+    for t in range(6 + silent_ticks + after_ticks):
+        ops.append({"op": "tick", "n": 0, "d": step})
+        silent = 6 <= t < 6 + silent_ticks
+        for a in range(3):
+            for b in range(3):
+                if a != b and not (silent and 2 in (a, b)):
+                    ops.append({"op": "hear", "n": a, "ref": nodes[b]["id"]})
+        for n in range(3):
+            ops.append({"op": "liveness", "n": n, "levels": {}})
+    return {"id": cid, "nodes": nodes, "ops": ops, "realfd": boot}
+
+
 def fd_probe(pid, binary, wd, rng, quick, corr=True):
     """real detector + real state histories: monitor and (corr) the world model with the verdicts the real detector gave.
     returns (violations, coverage)"""
-    cases = [gen_fd_case(rng, "fd%d" % i) for i in range(8 if quick else 120)]
+    # always: a silence far longer than the detector needs (75x the bootstrap interval) followed by a recovery, and a short one
+    cases = [fd_corpus_case("fd-long-silence", 200, 1000, 15, 6), fd_corpus_case("fd-short-silence", 1000, 250, 3, 5)]
+    cases += [gen_fd_case(rng, "fd%d" % i) for i in range(8 if quick else 120)]
     outs = run_world(binary, wd, cases, tag="fd")
     viol, kinds = [], {}
     for c, o in zip(cases, outs):
